@@ -270,6 +270,13 @@ def update_only_twin(ctx):
                 for step in range(nsteps):
                     cand = rng.integers(0, 4, size=(int(rng.integers(1, 6)), 2)).astype(float)
                     idx, ut = _query(name, a, cand, clf, X, y)
+                    if step % 3 == 1:
+                        # another chunk is committed (without having been queried) between query(A) and update(A): whatever the query
+                        # of A left behind in the queried twin must not survive it
+                        candB = rng.integers(0, 4, size=(int(rng.integers(1, 4)), 2)).astype(float)
+                        utB = np.full(len(candB), 0.25)
+                        _update(name, a, candB, [], utB)
+                        _update(name, b, candB, [], utB)
                     _update(name, a, cand, idx, ut)
                     _update(name, b, cand, idx, ut)
                     sa, sb = S.snapshot(a), S.snapshot(b)
